@@ -352,11 +352,14 @@ def _make_set(rng, version, level, mult, theta=None):
         js = [str(s) for s in rng.permutation(J_SPECS)]
         if version == "ij":
             js = js[:2]
-        else:
-            # a spec may occur twice with different parameters (second se_erf_rinv with another erf_mul, second se with
-            # another exponent): tables and constants belong to the parameter set, not to the spec name
-            js.append("se_erf_rinv" if rng.random() < 0.5 else str(rng.choice(J_SPECS)))
         jp = [_params(rng, level, erf=(s == "se_erf_rinv")) for s in js]
+        if version == "j":
+            # a spec may occur twice with different parameters (a second se_erf_rinv with another erf_mul): tables and
+            # constants belong to the parameter set, not to the spec name.  Its parameters come from a child generator so
+            # that the draws of every other feature (and with them the calibrated bounds' sample) stay what they were
+            r2 = np.random.default_rng([int(1e6 * jp[0][0]), int(1e6 * theta[0]), 17])
+            js.append("se_erf_rinv")
+            jp.append(_params(r2, level, erf=True))
         desc.update(j_specs=js, j_params=jp)
         feats += [("vj:%s|%s" % (s, mult), "v%s:%s,%s" % (version, s, mult)) for s in js]
     if version == "k":
